@@ -32,6 +32,11 @@ static int g_frames, g_sumfs, g_minbudget=1<<30, g_sumbudget, g_dtx_frames;
 static int g_mode, g_bw, g_sch, g_fsz;
 opus_int32 stub_frame(OpusEncoder *st, const opus_res *pcm, int frame_size, unsigned char *data, opus_int32 max_data_bytes, int float_api, int first_frame, AnalysisInfo *ai, int is_silence, int redundancy, int celt_to_silk, int prefill, opus_int32 equiv_rate, int to_celt){
   VASSERT(max_data_bytes>=1,"frame encoder is always handed at least one byte");
+  /* what harness/C05_frame.c assumes of its caller (assume/guarantee) */
+  VASSERT(max_data_bytes>=3 && (long long)st->bitrate_bps*frame_size>=24LL*st->Fs,"outside the low-budget path every frame has at least 3 bytes of room and of rate");
+  VASSERT((st->mode!=MODE_CELT_ONLY || frame_size<=st->Fs/50) && (st->mode!=MODE_HYBRID || frame_size==st->Fs/100 || frame_size==st->Fs/50)
+       && (st->mode!=MODE_SILK_ONLY || frame_size==st->Fs/100 || frame_size==st->Fs/50 || frame_size==st->Fs/25 || frame_size==3*st->Fs/50),"frame duration legal for the coding mode");
+  VASSERT(st->bitrate_bps<=300000*st->channels || (long long)st->bitrate_bps*frame_size<=10208LL*st->Fs,"bitrate bounded by the setting range or by the 1276-byte cap");
   g_frames++; g_sumfs+=frame_size; g_sumbudget+=max_data_bytes; if(max_data_bytes<g_minbudget) g_minbudget=max_data_bytes;
   g_mode=st->mode; g_bw=st->bandwidth; g_sch=st->stream_channels; g_fsz=frame_size;
   VASSERT(st->mode==MODE_SILK_ONLY||st->mode==MODE_HYBRID||st->mode==MODE_CELT_ONLY,"a coding mode is decided");
